@@ -1,4 +1,4 @@
-From QV Require Import model.Base model.Lang model.Types model.Tir model.CfgCheck model.Builder model.Passes model.TirCase gen.GenE0 proofs.CfgProofs proofs.BuilderSafeSwitch proofs.BuilderCfg props.C06.
+From QV Require Import model.Base model.Lang model.Types model.Tir model.CfgCheck model.Builder model.Passes model.TirCase gen.GenE0 proofs.CfgProofs proofs.BuilderSafeSwitch proofs.BuilderCfg proofs.BuilderOpenCount props.C06.
 Open Scope nat_scope.
 Check (C06_checker_sound : forall c exempt, cfg_ok c exempt = true ->
   forall p, path (c_blocks c) p ->
@@ -24,3 +24,7 @@ Check (C06_builder_frame : forall E cb s,
 Check (C06_jump_targets_exist : forall E cb c, wf_callback cb = true -> bu_code (build_callback E cb) = Some c ->
   forall i b t, nth_error (c_blocks c) i = Some b -> b_term b = Some t ->
     match t with TmBr l => l < List.length (c_blocks c) /\ l <> i | TmBrCond _ x y => x < List.length (c_blocks c) /\ y < List.length (c_blocks c) | _ => True end).
+Check (C06_every_block_terminated : forall E cb c, wf_callback cb = true -> bu_code (build_callback E cb) = Some c ->
+  forall i b, nth_error (c_blocks c) i = Some b -> b_term b <> None).
+Check (C06_walk_leaves_one_open_block : forall E cb env s, wf_callback cb = true -> walk_callback E cb bstate0 = (V (true, env), s) ->
+  forall i b, i < List.length (bs_blocks s) - 1 -> nth_error (bs_blocks s) i = Some b -> b_term b <> None).
